@@ -3,6 +3,7 @@
 package resolver
 
 import (
+	"net/netip"
 	"time"
 
 	"github.com/miekg/dns"
@@ -30,4 +31,35 @@ func VerifC08DelegationInfo(resp *dns.Msg) (nsTTL uint32, hosts int, hasNS, hasS
 // VerifC08ValidReferral exposes validReferral over a response's authority section.
 func VerifC08ValidReferral(resp *dns.Msg, authZone string, q dns.Question) bool {
 	return validReferral((&Resolver{}).extractDelegationInfo(resp), authZone, q)
+}
+
+// VerifC08Glue runs the real checkGlueRR on a referral for zone `n1.` with one NS host
+// `ns.n1.` glued to 192.0.2.<ref>, after the never-expiring glue address cache was primed
+// with 192.0.2.<cached> for that host (cached = 0: not primed). Returns the last octets of the
+// server addresses the referral yields and of what the glue cache holds afterwards.
+func VerifC08Glue(r *Resolver, cached, ref byte) (servers []int, inCache []int) {
+	host := "ns.n1."
+	r.removeIPv4Cache(host)
+	if cached != 0 {
+		r.addIPv4Cache(map[string][]netip.Addr{host: {netip.AddrFrom4([4]byte{192, 0, 2, cached})}})
+	}
+	resp := new(dns.Msg)
+	resp.SetQuestion("www.n1.", dns.TypeA)
+	resp.Ns = []dns.RR{&dns.NS{Hdr: dns.RR_Header{Name: "n1.", Rrtype: dns.TypeNS, Class: dns.ClassINET, Ttl: 300}, Ns: host}}
+	if ref != 0 {
+		resp.Extra = []dns.RR{&dns.A{Hdr: dns.RR_Header{Name: host, Rrtype: dns.TypeA, Class: dns.ClassINET, Ttl: 300}, A: []byte{192, 0, 2, ref}}}
+	}
+	auth, _, _ := r.checkGlueRR(resp, hostSet{host: {}}, 0)
+	for _, s := range auth.List {
+		if s.UDPAddr != nil {
+			servers = append(servers, int(s.UDPAddr.IP.To4()[3]))
+		}
+	}
+	if addrs, ok := r.getIPv4Cache(host); ok {
+		for _, a := range addrs {
+			b := a.As4()
+			inCache = append(inCache, int(b[3]))
+		}
+	}
+	return
 }
